@@ -71,6 +71,7 @@ pub fn drop_table() -> Vec<(usize, u32)> {
 
 /// Heap-owning payload: identity, a value register, a heap block (so leaks show up in the ledger).
 #[repr(C)]
+#[derive(Debug)]
 pub struct Heavy {
     pub id: u32,
     pub magic: u32,
